@@ -110,7 +110,7 @@ pub fn main(args: &[String]) {
                 let tbytes: Vec<u8> = c["template"].as_array().unwrap().iter().map(|x| x.as_u64().unwrap() as u8).collect();
                 let id = c["id"].as_u64().unwrap() as u32;
                 let Ok(tstr) = String::from_utf8(tbytes.clone()) else { return };
-                let entry = AbsEntry { cps: vec![0], feats: vec![], ds: vec![], kids: vec![], conj: false, ign: false, fmt: "glyph".into(), id };
+                let entry = AbsEntry { cps: vec![0], feats: vec![], ds: vec![], kids: vec![], conj: false, ign: false, fmt: "glyph".into(), id, sid: None };
                 let f = AbsFont { ift: Some(AbsTable { compat: 1, tmpl: format!("raw:{tstr}"), entries: vec![entry] }), iftx: None };
                 let built = build_font(&f, 1, &[]);
                 let font = FontRef::new(&built.bytes).unwrap();
@@ -143,7 +143,7 @@ pub fn main(args: &[String]) {
             for (conj, ign) in [(false, true), (true, true), (false, false)] {
                 let entries: Vec<AbsEntry> = (0..n)
                     .map(|i| AbsEntry { cps: vec![], feats: vec![], ds: vec![], kids: if i == 0 { vec![] } else { vec![i] }, conj,
-                                        ign: ign && i + 1 < n, fmt: "glyph".into(), id: i as u32 + 1 })
+                                        ign: ign && i + 1 < n, fmt: "glyph".into(), id: i as u32 + 1, sid: None })
                     .collect();
                 let f = AbsFont { ift: Some(AbsTable { compat: 1, tmpl: "A".into(), entries }), iftx: None };
                 let built = build_font(&f, 1, &[]);
@@ -185,26 +185,26 @@ pub fn main(args: &[String]) {
     rep.finish();
 }
 
-fn uri_table(fonts: &[&AbsFont]) -> HashMap<String, (String, u32)> {
+fn uri_table(fonts: &[&AbsFont]) -> HashMap<String, (String, Value)> {
     let mut m = HashMap::new();
     for f in fonts {
         for t in [&f.ift, &f.iftx].into_iter().flatten() {
             for e in &t.entries {
-                m.insert(uri_string(&t.tmpl, e.id), (t.tmpl.clone(), e.id));
+                m.insert(entry_uri_string(&t.tmpl, e), (t.tmpl.clone(), id_json(e)));
             }
         }
     }
     m
 }
 
-fn juri(m: &HashMap<String, (String, u32)>, s: &str) -> Value {
+fn juri(m: &HashMap<String, (String, Value)>, s: &str) -> Value {
     match m.get(s) {
         Some((t, id)) => json!([t, id]),
         None => json!(["?", 0]),
     }
 }
 
-fn offered_uris(bytes: &[u8], def: &AbsDef, m: &HashMap<String, (String, u32)>) -> Result<Vec<Value>, String> {
+fn offered_uris(bytes: &[u8], def: &AbsDef, m: &HashMap<String, (String, Value)>) -> Result<Vec<Value>, String> {
     let font = FontRef::new(bytes).map_err(|e| format!("synthesised font does not open: {e}"))?;
     let r = guarded(|| intersecting_patches(&font, &def.realise()));
     match r {
@@ -511,7 +511,7 @@ fn random_entry(rng: &mut Rng, index: usize, ids: u64, fmt_weights: (u64, u64)) 
     let fmt = if r < fmt_weights.0 { "full" } else if r < fmt_weights.0 + fmt_weights.1 { "part" } else { "glyph" };
     // glyph keyed entries may carry segments on a second axis (intersection sizes of invalidating ones are modelled on one)
     let ds: Vec<(i32, i32)> = if fmt == "glyph" { ds.into_iter().map(|(a, b)| if rng.chance(1, 3) { (a + AX_STEP, b + AX_STEP) } else { (a, b) }).collect() } else { ds };
-    AbsEntry { cps, feats, ds, kids, conj: rng.chance(1, 2), ign: rng.chance(1, 6), fmt: fmt.to_string(), id: 1 + rng.below(ids) as u32 }
+    AbsEntry { cps, feats, ds, kids, conj: rng.chance(1, 2), ign: rng.chance(1, 6), fmt: fmt.to_string(), id: 1 + rng.below(ids) as u32, sid: None }
 }
 
 fn random_table(rng: &mut Rng, compat: u32, tmpl: &str, max_entries: u64) -> AbsTable {
